@@ -316,6 +316,33 @@ pub fn c20(c: &Case, rep: &mut Report) {
             }
         }
     }
+    // encodings the reference validator does not gate on features: judged on the bytes themselves
+    if let (Ok(din), Ok(dout)) = (decode::decode(input), decode::decode(out)) {
+        let ein = wv_oracle::encodings::encodings(input, &din);
+        let eout = wv_oracle::encodings::encodings(out, &dout);
+        let min = feat::minimal_features(input).map(feat::feature_names).unwrap_or_default();
+        for (class, proposal) in wv_oracle::encodings::CLASSES {
+            if eout.contains(class) {
+                rep.count(&format!("outputs-using-{}", class), 1);
+            }
+            let implied_by_input = ein.contains(class)
+                || min.contains(&proposal)
+                || (class == "element-segment-flags" && (min.contains(&"reference-types") || ein.contains("data-segment-flags") || ein.contains("data-count-section")))
+                || (proposal == "bulk-memory" && (ein.contains("element-segment-flags") || ein.contains("data-segment-flags") || ein.contains("data-count-section")))
+                || (class == "data-segment-flags" && min.contains(&"multi-memory"));
+            if eout.contains(class) && !implied_by_input {
+                rep.violation(
+                    c,
+                    &format!("C20/encoding-escalation/{}", class),
+                    &format!("the output uses the {} encoding ({} proposal); the input uses none of it and does not need that proposal (input encodings {:?}, minimal features {:?})", class, proposal, ein, min),
+                    &[("out.emit.wasm", out)],
+                );
+            }
+        }
+        if ein.is_empty() {
+            rep.count("inputs-with-pure-mvp-encodings", 1);
+        }
+    }
     if not_needed > 0 && has_code(out) {
         rep.nontrivial(c, "");
     }
